@@ -57,7 +57,8 @@ def main():
                 shutil.copy(os.path.join(d, "notes.md"), dst)
             json.dump(meta, open(os.path.join(dst, "meta.json"), "w"), indent=1)
         print(name, summary[name], flush=True)
-    json.dump(summary, open(os.path.join(VERIF, "seeded", "results.json"), "w"), indent=1)
+    import seeded_readme
+    seeded_readme.main()
 
 if __name__ == "__main__":
     main()
